@@ -28,7 +28,7 @@ CONSTANTS Names, Vals, MaxVer, Nil, Cp(_), Reserved(_),
           Clients          \* client ids; each has one call in flight at most
 
 VARIABLES sec, disk, auditOK, last,    \* the linearized store: Vault's variables
-          pc,      \* [Clients -> "idle" | "begun" | "logged" | "done"]
+          pc,      \* [Clients -> "idle" | "begun" | "logged" | "applied" | "done"]
           req,     \* [Clients -> request record]
           resp,    \* [Clients -> reply of the call in flight, valid when pc = "done"]
           alog     \* the audit log: sequence of entries, in the order written
@@ -94,7 +94,42 @@ Refuse(c) ==
   /\ pc' = [pc EXCEPT ![c] = "done"]
   /\ UNCHANGED <<req, alog>>
 
-\* Conditional get and list: read and record in one critical section.
+\* The same two calls may also be written the way the others are -- the property (C14: linearizable; C06: the record is
+\* complete before a value is returned) does not ask for one critical section:
+\*   list:  record first, outside the lock, then the read (LogList ; Apply)
+\*   conditional get:  the check-and-read under the lock, then -- only if a value is going to be returned -- its record,
+\*   before the call returns (ApplyCond ; LogAfter).  A denial is recorded and returned as for every other call (Log).
+LogList(c) ==
+  LET r == req[c] IN
+  /\ pc[c] = "begun" /\ r.op = "list"
+  /\ alog' = Append(alog, V!Entry(r.who, "info", "", 0, TRUE))
+  /\ pc' = [pc EXCEPT ![c] = "logged"]
+  /\ UNCHANGED <<req, resp>> /\ UNCHANGED vvars
+
+LogDeniedCond(c) ==
+  LET r == req[c] IN
+  /\ pc[c] = "begun" /\ r.op = "getcond" /\ ~V!Allowed(r.rules, "get", r.name)
+  /\ Act(r)
+  /\ alog' = alog \o last'.audit
+  /\ resp' = [resp EXCEPT ![c] = last'.reply]
+  /\ pc' = [pc EXCEPT ![c] = "done"]
+  /\ UNCHANGED req
+
+ApplyCond(c) ==
+  /\ pc[c] = "begun" /\ req[c].op = "getcond" /\ V!Allowed(req[c].rules, "get", req[c].name)
+  /\ Act(req[c])
+  /\ resp' = [resp EXCEPT ![c] = last'.reply]
+  /\ pc' = [pc EXCEPT ![c] = IF last'.audit = <<>> THEN "done" ELSE "applied"]
+  /\ UNCHANGED <<req, alog>>
+
+LogAfter(c) ==
+  LET r == req[c] IN
+  /\ pc[c] = "applied"
+  /\ alog' = Append(alog, V!Entry(r.who, "get", r.name, 0, TRUE))
+  /\ pc' = [pc EXCEPT ![c] = "done"]
+  /\ UNCHANGED <<req, resp>> /\ UNCHANGED vvars
+
+\* Conditional get and list: read and record in one critical section (the pinned code).
 LogApply(c) ==
   /\ pc[c] = "begun" /\ req[c].op \in LockedOps
   /\ Act(req[c])
